@@ -249,6 +249,13 @@ pub mod rpc {
     pub fn inflight_push_tx() -> u32 {
         <crate::rpc::push_tx::Rpc as crate::rpc::Rpc>::INFLIGHT
     }
+    pub fn capability_push_block_store_state() -> u64 {
+        <crate::rpc::push_block_store_state::Rpc as crate::rpc::Rpc>::CAPABILITY.id()
+    }
+    /// Wire encoding (protobuf, without the length prefix) of a `push_block_store_state` request.
+    pub fn encode_push_block_store_state_req(state: zksync_consensus_engine::BlockStoreState) -> Vec<u8> {
+        zksync_protobuf::encode(&crate::rpc::push_block_store_state::Req { state })
+    }
     /// Wire encoding (protobuf, without the length prefix) of a `get_block` request.
     pub fn encode_get_block_req(number: validator::BlockNumber) -> Vec<u8> {
         zksync_protobuf::encode(&crate::rpc::get_block::Req(number))
